@@ -37,7 +37,7 @@ def index_of(kind, seq, size, seed, name="idx"):
     if kind == "float":
         return pd.Index(np.array(vals, dtype="float64"), name=name)
     if kind == "str":
-        return pd.Index(np.array(vals, dtype=object), dtype=object, name=name)
+        return pd.Index(vals, dtype="str", name=name)  # pandas-3 default string dtype (an object index would be converted by dask: documented convert-string)
     return pd.DatetimeIndex(vals, name=name).as_unit("ns") if len(vals) else pd.DatetimeIndex([], name=name).as_unit("ns")
 
 
